@@ -26,7 +26,7 @@ FLOORS = {"quick": {"departures_checked": 30000, "waited_for_tokens": 5000, "cap
                        "oversize_packets": 10000, "pair_inequalities": 4000000, "peak_spacings": 100000,
                        "colours_checked": 200000, "red": 20000, "yellow": 20000, "green": 20000,
                        "green_pairs": 1000000, "must_be_green": 6000, "zero_peak_bucket_heads": 1000}}
-KEYS = tuple(FLOORS["quick"].keys()) + ("tb_cases", "trtb_cases", "exact_cases", "float_cases", "fast_cases", "precoloured_packets")
+KEYS = tuple(FLOORS["quick"].keys()) + ("tb_cases", "trtb_cases", "exact_cases", "float_cases", "fast_cases", "precoloured_packets", "same_object_again")
 
 
 def plan(tier):
@@ -62,7 +62,7 @@ def gen_case(rng, i):
         if rng.random() < 0.08:
             shift += rng.choice([8, 32, 64])
         a["t"] += shift
-        a["age"] = 0
+        a["age"] = rng.choice([0, 0, 0, 0.5, 2, 7.25])        # creation stamps are not in arrival order
     if fast:
         B = rng.choice([3000, 1000, 500])
         t = 0.0
@@ -70,6 +70,11 @@ def gen_case(rng, i):
             t += rng.choice([0.9e-6, 0.5e-6, 0.3e-6, 2e-6, 0.0])
             a["t"] = t
             a["split"] = 0
+    # the same Packet object handed in again while its earlier submission may still be waiting
+    for k in range(1, len(arr)):
+        if rng.random() < 0.1 and arr[k].get("drv", 0) == arr[k - 1].get("drv", 0):
+            arr[k]["again"] = True
+            arr[k]["size"] = arr[k - 1]["size"]
     # some packets arrive already carrying a colour from an upstream meter
     for a in arr:
         if rng.random() < 0.25:
@@ -135,11 +140,20 @@ def run_case(case, stats):
     sink = net.recorder("sink")
     el.out = sink
     net.tap_put(el, "tb")
+    cols_at_out = []
+    oput = sink.put
+
+    def sput(p):
+        cols_at_out.append(p.color)          # (one object may pass several times: its colour is read when it leaves)
+        oput(p)
+    sink.put = sput
 
     def precolour(p, a):
         if a.get("precolour"):
             p.color = a["precolour"]
             stats["precoloured_packets"] += 1
+        if a.get("again"):
+            stats["same_object_again"] += 1
     for d in (0, 1):
         mine = [a for a in case["arrivals"] if a.get("drv", 0) % 2 == d]
         if mine:
@@ -198,7 +212,7 @@ def run_case(case, stats):
                     {"k": k, "gap": D[k] - D[k - 1], "min": sizes[k] * 8.0 / peak})
                 return viol
     if case["kind"] == "trtb":
-        cols = [net.pk.objs[e[5]].color for e in ins]
+        cols = cols_at_out
         cir, cbs = case["cir"], case["cbs"]
         greens = []
         for k, c in enumerate(cols):
